@@ -607,12 +607,21 @@ func (f *fragment) row(rowID uint64) *Row {
 // (updating the cache).
 func (f *fragment) unprotectedRow(rowID uint64) *Row {
 	r, ok := f.rowCache.Fetch(rowID)
-	if ok && r != nil {
-		return r
+	if !ok || r == nil {
+		r = f.rowFromStorage(rowID)
+		f.rowCache.Add(rowID, r)
 	}
 
-	row := f.rowFromStorage(rowID)
-	f.rowCache.Add(rowID, row)
+	// The cached row is shared by every reader of this row. Hand out a row
+	// of its own whose segments are marked read-only, so that a caller
+	// which writes to it (Row.SetBit, Row.Merge - also through a row that
+	// adopted these segments, such as a query result) first gets a private
+	// copy of the bitmap instead of changing what later readers see.
+	row := &Row{segments: make([]rowSegment, len(r.segments))}
+	copy(row.segments, r.segments)
+	for i := range row.segments {
+		row.segments[i].writable = false
+	}
 	return row
 }
 
